@@ -582,7 +582,7 @@ def rule_pair(ctx, rep, rid="R-C05-pair"):
 
 
 def rule_noop(ctx, rep):
-    r = rep.rule("R-C05-noop", "no position counter of the lexer is advanced by the literal 0 on a path that consumed input", floor=5, floor_what="counter updates in lexer::tokenize")
+    r = rep.rule("R-C05-noop", "no position counter of the lexer is advanced by the literal 0 on a path that consumed input", floor=3, floor_what="counter updates in lexer::tokenize")
     lb = ctx.prog.get("ironplc_parser::lexer::tokenize")
     if not lb:
         rep.error("R-C05-noop", "lexer::tokenize not found")
@@ -657,6 +657,7 @@ def rule_linecol(ctx, rep, rid="R-C05-linecol"):
         rep.error(rid, "lexer::tokenize not found")
         return
     b = lb[0]
+    where0 = "%s:%d" % (b.f["file"], b.f["line"])
     loc = {name: l for l, (ty, name) in enumerate(b.f["locals"]) if name in ("line", "col")}
     if set(loc) != {"line", "col"}:
         r.finding("lexer::tokenize|counters", "%s:%d" % (b.f["file"], b.f["line"]), "no locals named line and col")
@@ -771,6 +772,82 @@ def rule_linecol(ctx, rep, rid="R-C05-linecol"):
         else:
             r.finding(inst + "|not-on-a-line-break", loc_str(b.f, s[3]), "`col` is reset to a constant on a path that is not the Newline token arm nor the `== '\\n'` "
                       "branch of a character test: what follows the last line break inside the token is not counted")
+    # clause 3: every token kind whose pattern can match a line break is counted character by character.  The kinds are computed from
+    # the lexer's own patterns (can the regex/literal contain '\n'?); a kind is covered if the block that tests for '\n' (the per-character
+    # counting) is reached on its path - i.e. it is not behind a match arm that excludes the kind.
+    a = ctx.facts.astattrs.get(TOKTYPE)
+    if a:
+        try:
+            import re._parser as sre_parse
+            import re._constants as sre_c
+        except ImportError:
+            import sre_parse
+            import sre_constants as sre_c
+
+        def can_nl(node):
+            for op, av in node:
+                if op == sre_c.LITERAL and av == 10:
+                    return True
+                if op == sre_c.NOT_LITERAL and av != 10:
+                    return True
+                if op == sre_c.IN:
+                    neg = any(o == sre_c.NEGATE for o, _ in av)
+                    hit = any((o == sre_c.LITERAL and v == 10) or (o == sre_c.RANGE and v[0] <= 10 <= v[1]) or (o == sre_c.CATEGORY and v in (sre_c.CATEGORY_SPACE, sre_c.CATEGORY_NOT_DIGIT, sre_c.CATEGORY_NOT_WORD)) for o, v in av if o != sre_c.NEGATE)
+                    if hit != neg:
+                        return True
+                if op == sre_c.SUBPATTERN and can_nl(av[-1]):
+                    return True
+                if op == sre_c.BRANCH and any(can_nl(x) for x in av[1]):
+                    return True
+                if op in (sre_c.MAX_REPEAT, sre_c.MIN_REPEAT) and can_nl(av[2]):
+                    return True
+            return False
+        multi = []
+        for vn, v in sorted(a["variants"].items()):
+            for at in v.get("attrs", []):
+                m = re.search(r'#\[regex\(r?"((?:[^"\\]|\\.)*)"', at)
+                if m:
+                    ptn = m.group(1)
+                    if not at.lstrip().startswith('#[regex(r'):
+                        ptn = ptn.encode().decode("unicode_escape")
+                    try:
+                        if can_nl(sre_parse.parse(ptn)) and vn not in multi:
+                            multi.append(vn)
+                    except Exception:
+                        pass
+        # the per-character test block(s): a switch on a char value with the arm 10, or `== '\n'`
+        nl_tests = set()
+        for i in b.reachable(0):
+            si = switch_info(b, i)
+            if not si:
+                continue
+            if si["kind"] == "int" and any([str(x) for x in labs] == ["10"] for labs in si["edges"].values()):
+                nl_tests.add(i)
+            if si["kind"] == "bool" and si["subject"][0] == "bin" and any(o[0] == "c" and o[1] == "char" and len(o) > 3 and o[3].get("int") == "10" for o in si["subject"][2:4]):
+                nl_tests.add(i)
+        # match arms on the token type: which variants reach a newline test?
+        covered = None
+        for i in sorted(b.reachable(0)):
+            si = switch_info(b, i)
+            if si and si["kind"] == "disc" and (si.get("adt") or "").endswith("token::TokenType"):
+                covered = set()
+                for succ, labs in si["edges"].items():
+                    region = b.reachable(succ, avoid={x for x in heads if x != i and (b.call_at(x) and "Lexer" in (b.call_at(x).ga or ""))})
+                    if region & nl_tests or region & {w[0] for w in line_w}:
+                        for l in labs:
+                            covered.add(str(l))
+                        if "otherwise" in [str(l) for l in labs]:
+                            covered.add("*")
+                break
+        for vn in multi:
+            inst = "lexer::tokenize|token %s can contain a line break" % vn
+            if not nl_tests:
+                r.finding(inst + "|no-per-character-counting", where0, "no per-character test for '\\n' in the lexer loop")
+            elif covered is None or vn in covered or "*" in covered:
+                r.ok(inst, where0, "counted character by character")
+            else:
+                r.finding(inst + "|not-counted", where0, "a %s token can span lines (its pattern matches '\\n') but its arm of the token match only adds the token's length to the column: "
+                          "every later token is reported one line too high per embedded line break" % vn)
     r.note("%d line advances, %d absolute / %d relative col writes" % (len(line_w), len(col_abs), len(col_rel)))
 
 
